@@ -163,6 +163,25 @@ func registerIntrinsics(e *Engine) {
 			return ex.invoke(fn, a, nil, nil)
 		})
 	}
+	// strings.Replacer: the lazily built matching machine is bypassed; the pairs are applied by a plain-Go model
+	replacerPairs := func(ex *Exec, recv Value) Value {
+		p := recv.(Ptr)
+		if p == nil {
+			panic(ex.rtPanic("invalid memory address or nil pointer dereference"))
+		}
+		st := (*p).(Struct)
+		return st[len(st)-1] // oldnew []string is the last field
+	}
+	reg("(*strings.Replacer).Replace", func(ex *Exec, fn *ssa.Function, a []Value) Value {
+		m := ex.eng.funcByName(harnessModule + "/models.ReplacerReplace")
+		return ex.invoke(m, []Value{replacerPairs(ex, a[0]), a[1]}, nil, nil)
+	})
+	reg("(*strings.Replacer).WriteString", func(ex *Exec, fn *ssa.Function, a []Value) Value {
+		m := ex.eng.funcByName(harnessModule + "/models.ReplacerReplace")
+		s := ex.invoke(m, []Value{replacerPairs(ex, a[0]), a[2]}, nil, nil)
+		r := ex.writeTo(a[1], s)
+		return r
+	})
 	reg("bytes.IndexByte", func(ex *Exec, fn *ssa.Function, a []Value) Value {
 		s, _ := a[0].(Slice)
 		for i, b := range s {
@@ -462,6 +481,60 @@ func registerIntrinsics(e *Engine) {
 		st := (*p).(Struct)
 		return &st[len(st)-1]
 	}
+	// atomic.Pointer[T]: the pointer is kept in the struct's last field
+	reg("(*sync/atomic.Pointer[T]).Load", func(ex *Exec, fn *ssa.Function, a []Value) Value {
+		ex.atomicOp(a[0].(Ptr))
+		f := atomicField(ex, a[0])
+		if p, ok := (*f).(Ptr); ok {
+			return p
+		}
+		return Ptr(nil)
+	})
+	reg("(*sync/atomic.Pointer[T]).Store", func(ex *Exec, fn *ssa.Function, a []Value) Value {
+		ex.atomicOp(a[0].(Ptr))
+		ex.noteSyncWrite(a[0].(Ptr))
+		*atomicField(ex, a[0]) = a[1]
+		return nil
+	})
+	reg("(*sync/atomic.Pointer[T]).Swap", func(ex *Exec, fn *ssa.Function, a []Value) Value {
+		ex.atomicOp(a[0].(Ptr))
+		ex.noteSyncWrite(a[0].(Ptr))
+		f := atomicField(ex, a[0])
+		old, _ := (*f).(Ptr)
+		*f = a[1]
+		return old
+	})
+	reg("(*sync/atomic.Pointer[T]).CompareAndSwap", func(ex *Exec, fn *ssa.Function, a []Value) Value {
+		ex.atomicOp(a[0].(Ptr))
+		f := atomicField(ex, a[0])
+		cur, _ := (*f).(Ptr)
+		want, _ := a[1].(Ptr)
+		if cur == want {
+			ex.noteSyncWrite(a[0].(Ptr))
+			*f = a[2]
+			return true
+		}
+		return false
+	})
+	// maps.clone (linked to the runtime): a shallow copy
+	reg("maps.clone", func(ex *Exec, fn *ssa.Function, a []Value) Value {
+		itf, ok := a[0].(Iface)
+		if !ok {
+			panic(ex.unsupported("maps.clone of a non-interface value"))
+		}
+		m, _ := itf.V.(*Map)
+		if m == nil {
+			return itf
+		}
+		ex.noteMap(m, false)
+		c := newMap()
+		for _, e := range m.entries {
+			if e != nil && !e.dead {
+				ex.mapUpdate(c, e.K, copyVal(e.V))
+			}
+		}
+		return Iface{T: itf.T, V: c}
+	})
 	for _, tn := range []string{"Int32", "Int64", "Uint32", "Uint64", "Bool", "Uintptr"} {
 		tname := tn
 		reg("(*sync/atomic."+tname+").Load", func(ex *Exec, fn *ssa.Function, a []Value) Value {
